@@ -133,11 +133,27 @@ func (d *driver) ask(op string, args ...[]byte) (*modelAns, error) {
 		b.WriteString(hx(a))
 	}
 	var rows []cryptoRow
-	for _, s := range stringsOf(args...) {
+	have := map[string]bool{}
+	var addRow func(s string)
+	addRow = func(s string) {
+		if have[s] {
+			return
+		}
+		have[s] = true
 		r := cryptoOf(s)
 		if r.pkOk || r.sigOk {
 			rows = append(rows, r)
+			// the canonical renderings too: the model re-decodes its own encodings
+			if r.pkOk {
+				addRow(r.pkCanon)
+			}
+			if r.sigOk {
+				addRow(r.sigCanon)
+			}
 		}
+	}
+	for _, s := range stringsOf(args...) {
+		addRow(s)
 	}
 	fmt.Fprintf(&b, " %d", len(rows))
 	for _, r := range rows {
